@@ -250,7 +250,7 @@ class Operands(object):
     if bad is not None:
       ctx.violation(dict(base, what="conversion_loses_values", fail=bad[0]),
                     "%s: documented lattice %s, qtools reports %s; %s not representable (%s)" % (
-                        spec["q"], ty.describe(t), ty.describe(r), bad[1], bad[0]),
-                    {"spec": spec, "reported": ty.fields(q), "value": str(bad[1])})
+                        spec["q"], ty.describe(t), ty.describe(r), ty.fmt(bad[1]), bad[0]),
+                    {"spec": spec, "reported": ty.fields(q), "value": ty.fmt(bad[1])})
     self.cache[k] = (t, q)
     return self.cache[k]
